@@ -665,3 +665,83 @@ def upload_inductive(c):
                  "b''.join(bytes(e[1][0].data[6:]) for e in sent('link.send_packet')) == bytes(buff) and "
                  "all(unpack('<BBHH', bytes(e[1][0].data[0:6])) == (tid, 0x14, page, address + sum(len(f[1][0].data) - 6 for f in sent('link.send_packet')[:j])) "
                  "for j, e in enumerate(sent('link.send_packet')))")
+
+
+# ------------------------------------------------------------------------- _internal_flash for ANY image length (loop invariant, page size enumerated)
+
+def _if_inductive(ps):
+    @contract('C12', 'internal_flash.inductive.ps%d' % ps, [BL + ':Bootloader._internal_flash'], float_mode='R',
+              clause='flashing an image of ANY length: loop invariant "ctr < buffer_pages buffers are loaded, they hold image pages k-ctr .. k-1"; in an '
+                     'arbitrary iteration k page k of the image (bytes [k*ps, min((k+1)*ps, len))) is loaded into buffer ctr, and when the buffers are '
+                     'full exactly one flash-write programs flash pages first+k-ctr .. first+k from buffers 0 .. ctr; every programmed page is inside '
+                     'the image range and below the flash size; the closing flash-write programs the remaining ctr pages ending at the last image '
+                     'page; a failed flash-write raises at once.  (Buffer contents follow by induction: buffer j is loaded exactly in the iteration '
+                     'whose ctr is j, and ctr restarts at 0 after every flash-write.)',
+              bounded='page size %d (1, 2, 3, 7, 25, 26, 1024 enumerated: with a concrete page size the page arithmetic is linear); image length, '
+                      'buffer pages, flash pages, start page, override page: any value' % ps)
+    def k(c):
+        tname = c.choice('target', ['stm32', 'nrf51'])
+        tid = {'stm32': 0xFF, 'nrf51': 0xFE}[tname]
+        c.int('addr', 0, 255), c.let('ps', ps), c.int('bp', 1, 65535), c.int('fp', 0, 65535), c.int('sp', 0, 65535)
+        has_override = c.choice('has_override', [False, True])
+        ov = c.int('override', 0, 65535) if has_override else None
+        c.let('first', ov if has_override else c.get('sp'))
+        image = c.view('image', 'bytes', maxlen=2 ** 31)
+        c.require('len(image) >= 1')
+        tinfo = target_info(c, tid)
+        if c.backend == 'sym':
+            ok_fn = lambda I, a, kw: I.fresh_bool('write_ok')        # noqa: E731  every flash-write may fail
+        else:
+            ok_fn = lambda I, a, kw: True                            # noqa: E731
+        cload = c.ext('cload', attrs={'targets': c.dict([(tid, tinfo)]), 'error_code': 0}, returns={'write_flash': ok_fn})
+        bl = bootloader(c, cload)
+        art = artifact(c, image, tname)
+        c.reset_trace()
+        if c.backend == 'sym':
+            I = c.I
+
+            def havoc(I_, fr):
+                fr.vars['ctr'] = I.fresh_int('ctr')
+                fr.vars['progress'] = I.fresh_float('progress')
+                del I.trace[:]
+            LAST = "sent('cload.write_flash')[-1][1]"
+            UP = "sent('cload.upload_buffer')[0][1]"
+            c.loop_invariant(BL + ':Bootloader._internal_flash', '#1',
+                             ['0 <= ctr and ctr < t_data.buffer_pages and ctr <= k',
+                              'k * t_data.page_size < len(image) or k == 0',
+                              'len(image) <= (t_data.flash_pages - start_page) * t_data.page_size'],
+                             havoc, ['ctr', 'progress'], index='k',
+                             iteration_post=[
+                                 ('exactly-one-page-loaded', "len(sent('cload.upload_buffer')) == 1 and len(sent('cload.write_flash')) <= 1"),
+                                 ('page-k-loaded-into-the-next-free-buffer',
+                                  UP + "[0] == t_data.addr and " + UP + "[2] == 0 and " + UP + "[3] == image[(k - 1) * t_data.page_size:min(k * t_data.page_size, len(image))] and "
+                                  "(" + UP + "[1] == ctr - 1 or (ctr == 0 and " + UP + "[1] == t_data.buffer_pages - 1))"),
+                                 ('buffer-slot-exists', "0 <= " + UP + "[1] and " + UP + "[1] < t_data.buffer_pages"),
+                                 ('flash-write-iff-buffers-full', "iff(len(sent('cload.write_flash')) == 1, ctr == 0)"),
+                                 ('flash-write-programs-the-loaded-pages-in-place',
+                                  "implies(len(sent('cload.write_flash')) == 1, " + LAST + "[0] == t_data.addr and " + LAST + "[1] == 0 and "
+                                  + LAST + "[3] == t_data.buffer_pages and " + LAST + "[2] == start_page + k - t_data.buffer_pages)"),
+                                 ('programmed-pages-inside-flash-and-image',
+                                  "implies(len(sent('cload.write_flash')) == 1, 0 <= " + LAST + "[2] and " + LAST + "[2] + " + LAST + "[3] <= t_data.flash_pages and "
+                                  "(" + LAST + "[2] + " + LAST + "[3] - 1 - start_page) * t_data.page_size < len(image) and " + LAST + "[2] >= start_page)")])
+        c.call((bl, '_internal_flash'), art, 1, 1, ov)
+        c.snapshot('fits', 'len(image) <= (fp - first) * ps')
+        c.ensure('refused-iff-it-does-not-fit', "iff(raised == 'Exception' and len(sent('cload.upload_buffer')) + len(sent('cload.write_flash')) == 0, not fits) or raised == 'Exception'")
+        c.ensure('only-declared-error', "raised in (None, 'Exception')")
+        if c.get('raised') is None:
+            c.snapshot('npages', '(len(image) - 1) // ps + 1')
+            if len([e for e in c.get('trace') if e[0] == 'cload.write_flash']) >= 1:
+                c.snapshot('W', "sent('cload.write_flash')[-1][1]")
+                c.ensure('closing-flash-write-ends-at-the-last-image-page', 'W[0] == addr and W[1] == 0 and W[3] >= 1 and W[3] <= bp and W[2] + W[3] == first + npages')
+                c.ensure('closing-flash-write-inside-flash', 'W[2] >= first and W[2] + W[3] <= fp')
+            c.ensure('every-page-flushed', "len(sent('cload.write_flash')) >= 1")
+        if c.backend == 'native':
+            # whole-wire statement on the real code for every witness / sampled input
+            c.ensure('native-pages-programmed-once-in-range',
+                     "implies(raised is None, sorted(p for e in sent('cload.write_flash') for p in range(e[1][2], e[1][2] + e[1][3])) == "
+                     "list(range(first, first + (len(image) - 1) // ps + 1)) and first + (len(image) - 1) // ps + 1 <= fp)")
+    return k
+
+
+for _ps in (1, 2, 3, 7, 25, 26, 1024):
+    _if_inductive(_ps)
